@@ -578,8 +578,11 @@ def finish(prop, tier, seed, level, cov, assumptions, wall, violations, infra):
     if infra:
         for i in infra[:5]:
             sys.stderr.write("infrastructure error: %s\n" % i[:2000])
-        print("INCONCLUSIVE property=%s (%d infrastructure errors)" % (prop, len(infra)))
-        return 2
+        if not new:
+            print("INCONCLUSIVE property=%s (%d infrastructure errors)" % (prop, len(infra)))
+            return 2
+        # a violation was found all the same (e.g. the runner deadlocked or crashed before it reached the committed
+        # replays): it is reported; the infrastructure errors are on stderr
     if new:
         os.makedirs(REPLAYS, exist_ok=True)
         for i, v in enumerate(new):
